@@ -71,6 +71,9 @@ func TestChild(t *testing.T) {
 		runActive.Store(rf.Engine == "powsim")
 		var end proto.End
 		if rf.BySeed {
+			for _, idx := range rf.Prelude {
+				generate(t, rf.Property, rf.Tier, RunSeed(rf.BaseSeed, rf.Property, rf.Tier, idx), false, nil)
+			}
 			end = generate(t, rf.Property, rf.Tier, rf.Seed, spec.Verbose, journal)
 		} else {
 			end = replay(t, &rf, journal)
